@@ -1,4 +1,3 @@
 package main
 
 func ruleC06Extra(prog *Program, rep *Report) {}
-func ruleC07Extra(prog *Program, rep *Report) {}
